@@ -105,7 +105,7 @@ def run_one(m, tier):
                 return res
             s = s.replace(o, n, 1) if name not in ("c07-factory-uniformity-le", "c07-poweron-uses-p", "c07-period-round15") else s.replace(o, n, 1)
             open(p, "w").write(s)
-        b = subprocess.run(["go", "build", "./..."], cwd=d, env=ENV, capture_output=True, text=True)
+        b = subprocess.run(["go", "build", "./..."], cwd=d, env=ENV, capture_output=True, text=True, errors="replace")
         if b.returncode != 0:
             res["status"] = "NOBUILD"
             res["build"] = b.stderr[-400:]
@@ -115,7 +115,7 @@ def run_one(m, tier):
         caught = False
         for cid in checks:
             t0 = time.time()
-            r = subprocess.run([os.path.join(ROOT, "check"), cid, tier], env=dict(ENV, VERIF_REPO=d, VERIF_OUT=out), capture_output=True, text=True)
+            r = subprocess.run([os.path.join(ROOT, "check"), cid, tier], env=dict(ENV, VERIF_REPO=d, VERIF_OUT=out), capture_output=True, text=True, errors="replace")
             viol = [l for l in r.stdout.splitlines() if l.startswith("VIOLATION")]
             det = [l for l in r.stdout.splitlines() if l.startswith("  detail:")]
             res["checks"][cid] = {"rc": r.returncode, "violations": len(viol), "first": (det[0][:220] if det else ""), "s": round(time.time() - t0, 1)}
